@@ -29,6 +29,8 @@ type MachineProvider interface {
 
 	StatesList() []fsm.State
 
+	FinStatesList() []fsm.State
+
 	IsFinState(state fsm.State) bool
 }
 
@@ -123,6 +125,19 @@ func Init(machines ...MachineProvider) *FSMPool {
 				p.states[state] = machineName
 			}
 
+		}
+	}
+
+	// Third iteration, all source states filled up
+	// Finish states which are not continued by another machine belong to the machine that ends in them,
+	// otherwise a machine dumped in a finish state (e.g. canceled) cannot be restored
+	for _, machine := range machines {
+		machineName := machine.Name()
+		for _, state := range machine.FinStatesList() {
+			if _, exists := p.states[state]; exists {
+				continue
+			}
+			p.states[state] = machineName
 		}
 	}
 
